@@ -4,6 +4,7 @@ CONSTANTS
   MaxLen = 10
   Vals = {1}
   MaxOps = 0
+  Extras = TRUE
   HistOn = FALSE
   AddSizes = {1}
   RewindPoints <- RPAll
